@@ -102,14 +102,16 @@ theorem probe_enabled_after_frames (fs : List Bytes) (s s' : LSt) (h : reading s
     (Life.step s' (.mach (.send c id seq salt))).isSome = (Life.step s (.mach (.send c id seq salt))).isSome := by
   rw [transport_frames_are_harmless fs s h] at hr
   cases hr
-  simp [Life.step, machEnabled, writable, Client.step, mayCall]
+  simp only [Life.step, machEnabled, writable, Client.step, mayCall]
+  split <;> [skip; rfl]
+  split <;> split <;> simp_all
 
-example : runJ (connected0 {} true 7) [.frame [0x6c, 0xfe, 0xff, 0xff], .life (.mach (.send 1 4 1 0)), .frame [],
-    .frame [1,2,3,4,5,6,7,8,9], .life .connClosed, .life (.redialOk 2 0), .frame [0,0,0,0]] |>.map
+example : (runJ (connected0 {} true 7) [.frame [0x6c, 0xfe, 0xff, 0xff], .life (.mach (.send 1 4 1 0)), .frame [],
+    .frame [1,2,3,4,5,6,7,8,9], .life .connClosed, .life (.redialOk 2 0), .frame [0,0,0,0]]).map
     (fun s => (s.m.warnings, s.m.pending, s.keyId, s.keyExchanges, reading s)) = some (4, [(4, 1)], 7, 0, true) := by
   decide +kernel
 
 /-- between the loss and the redial nothing of the wire is enabled, such a frame included -/
-example : runJ (connected0 {} true 7) [.life .connClosed, .frame [0,0,0,0]] = none := by decide +kernel
+example : (runJ (connected0 {} true 7) [.life .connClosed, .frame [0,0,0,0]]).isNone = true := by decide +kernel
 
 end Mtv.Client.Frame
